@@ -58,6 +58,12 @@ func TestGolden(t *testing.T) {
 		{"gas", []Spec{{Pkg: "p", Name: "Halvings"}}},
 		{"short", []Spec{{Pkg: "p", Name: "Short"}}},
 		{"oracle", []Spec{{Pkg: "p", Name: "Scan", Oracles: []string{"Src.Len", "Src.At"}}}},
+		{"switch", []Spec{{Pkg: "p", Name: "Class"}}},
+		{"table", []Spec{{Pkg: "p", Name: "initTable"}}},
+		{"compact", []Spec{{Pkg: "p", Name: "Compact"}}},
+		{"field", []Spec{{Pkg: "p", Recv: "Acc", Name: "Sub"},
+			{Pkg: "p", Name: "Settle", As: "settled", Stmts: []string{"if a.Total > 0"}, Result: "a.Total"}}},
+		{"oracle2", []Spec{{Pkg: "p", Name: "First", Oracles: []string{"utf8.DecodeRuneInString"}}}},
 		{"cond", []Spec{{Pkg: "p", Name: "Avg", As: "avgGuard", Stmts: []string{"if total == 0"}}}},
 	} {
 		text, missing := Generate(root(t), "X", c.specs)
@@ -74,6 +80,7 @@ func TestRefused(t *testing.T) {
 		"Float": "type",
 		"Map":   "non-slice",
 		"Spawn": "statement",
+		"Runes": "decodes runes",
 		"Rec":   "recursion",
 		"Scan":  "no source", // an interface method, unless named as an oracle
 	} {
@@ -87,6 +94,9 @@ func TestRefused(t *testing.T) {
 	}
 	if _, missing := Generate(root(t), "X", []Spec{{Pkg: "p", Name: "Big", As: "b", Stmts: []string{"bucket"}}}); len(missing) != 1 {
 		t.Errorf("an ambiguous statement pattern must be refused, got %v", missing)
+	}
+	if _, missing := Generate(root(t), "X", []Spec{{Pkg: "p", Name: "Settle", As: "b", Stmts: []string{"if a.Total > 0", "a.Total -= n"}, Result: "a.Total"}}); len(missing) != 1 {
+		t.Errorf("a selected statement inside another selected statement must be refused, got %v", missing)
 	}
 	if _, missing := Generate(root(t), "X", []Spec{{Pkg: "p", Name: "Nope"}}); len(missing) != 1 {
 		t.Errorf("a missing function must be reported, got %v", missing)
